@@ -671,6 +671,50 @@ Proof.
 Qed.
 
 
+(* ====================================================================================================
+   Library operations that re-sign (request mut of the driver: the extracted machine driven by set_locktime_*,
+   sign_and_update, bumpfee, add_output + sign(replace_signatures), shuffle, merge_transaction) and signature
+   argument forms (request sigf: OSign; OCtor []).  Closed instances of the machine; the general statement
+   (for all inputs holding the private keys of their first m keys: OEpochs; OSign (Some i) true true (first m keys)
+   for every i; OVerify = true) is NOT proved here: tx_history_then_verify speaks about histories under one digest, a
+   digest change between sign() calls is outside it (see the guard resign_free_all / class resign_keeps_stale).
+   ==================================================================================================== *)
+(* a library operation that changes committed fields and re-signs: every input holds the private keys of its first m
+   listed keys; the digest of every input changes (OEpochs) and Transaction.sign(replace_signatures=True) runs on every
+   input (sign_and_update, set_locktime_blocks / _time, bumpfee, merge_transaction): the object verifies, the bytes it
+   broadcasts verify, the parsed bytes verify - twice in a row *)
+Example resign_all_after_field_change_verifies :
+  let verdicts := fun l => map (fun o => match o with ObsVerify b _ _ => Some b | ObsBoth b _ r => Some (andb b r) | _ => None end) l in
+  verdicts (run_scenario [((true, [0]%Z), 1); ((false, [2; 4; 6]%Z), 2)]
+     [OSign (Some 0) false true [0%Z]; OSign (Some 1) false true [2; 4]%Z; OVerify;
+      OEpochs [1; 1]%Z; OSign (Some 0) true true [0%Z]; OSign (Some 1) true true [2; 4]%Z;
+      OVerify; OProbe AOther 2 [1; 1]%Z [3; 2]%Z; ORound;
+      OEpochs [2; 2]%Z; OSign (Some 0) true true [0%Z]; OSign (Some 1) true true [2; 4]%Z;
+      OVerify; OProbe AOther 2 [2; 2]%Z [3; 2]%Z; ORound])
+  = [None; None; Some true; None; None; None; Some true; Some true; Some true;
+     None; None; None; Some true; Some true; Some true].
+Proof. vm_compute. reflexivity. Qed.
+
+(* seeded change C02-y in the vocabulary of this model: the field changes, nothing re-signs *)
+Example field_change_without_resign_refuted :
+  let verdicts := fun l => map (fun o => match o with ObsVerify b _ _ => Some b | _ => None end) l in
+  verdicts (run_scenario [((true, [0]%Z), 1)]
+     [OSign (Some 0) false true [0%Z]; OVerify; OEpochs [1%Z]; OVerify; ORound])
+  = [None; Some true; None; Some false; Some false].
+Proof. vm_compute. reflexivity. Qed.
+
+(* proposed known class relative_locktime_resigns_one_input: set_locktime_relative_* changes the digest of EVERY input
+   and re-signs the one it names *)
+Example relative_locktime_resigns_one_input_refuted :
+  let verdicts := fun l => map (fun o => match o with ObsVerify b _ _ => Some b | _ => None end) l in
+  verdicts (run_scenario [((true, [0]%Z), 1); ((false, [2]%Z), 1)]
+     [OSign (Some 0) false true [0%Z]; OSign (Some 1) false true [2%Z]; OVerify;
+      OEpochs [1; 1]%Z; OSign (Some 0) true true [0%Z]; OVerify; ORound;
+      OSign (Some 1) true true [2%Z]; OVerify])
+  = [None; None; Some true; None; None; Some false; Some false; None; Some true].
+Proof. vm_compute. reflexivity. Qed.
+
+
 Print Assumptions verify_sound.
 Print Assumptions verify_sound_positions.
 Print Assumptions verify_insufficient.
